@@ -30,7 +30,9 @@
 (*                                                                         *)
 (* blk/off: memory position of a BumpBox<[T]> part (block id, offset in    *)
 (* elements) so that merge knows which parts are contiguous; blk = 0 is    *)
-(* the dangling empty slice.                                               *)
+(* the dangling empty slice (also what an empty allocation returns),       *)
+(* blk = -1 an empty slice whose address the specification does not know   *)
+(* (conversion of an empty vector): never offered to merge.                *)
 (***************************************************************************)
 EXTENDS Integers, Sequences, FiniteSets, TLC
 
@@ -132,7 +134,7 @@ DefaultKey(km, id) == CASE km = "alt" -> id % 2 [] km = "same" -> 0 [] OTHER -> 
 S0 == [op |-> "", c |-> 0, d |-> 0, i |-> 0, j |-> 0, xs |-> <<>>, ps |-> <<>>, bs |-> <<>>, s |-> "",
        pk |-> "", pn |-> 0]
 E0 == [out |-> "ok", cs |-> cs, ret |-> <<>>, hl |-> {}, dr |-> <<>>, cr |-> {}, lk |-> {}, lossy |-> FALSE,
-       nf |-> 0, key |-> key, nb |-> 0, inv |-> {}, sp |-> FALSE, num |-> <<>>]
+       nf |-> 0, key |-> key, nb |-> 0, inv |-> {}, sp |-> FALSE, num |-> <<>>, cl |-> <<>>]
 
 InPlaceOps == {"push", "push_with", "insert", "remove", "swap_remove", "pop", "pop_if", "truncate", "clear", "resize",
                "resize_with", "extend_from_slice_clone", "extend_from_within_clone", "extend", "append", "append_slot",
@@ -144,6 +146,8 @@ ProjCont(c) == [k |-> c.k, v |-> c.v, cap |-> c.cap, pr |-> c.pr]
 Exp(step, e) ==
     [out |-> e.out, ret |-> e.ret, cs |-> [i \in Slots |-> ProjCont(e.cs[i])], dr |-> e.dr, cr |-> SetToSeq(e.cr),
      lk |-> SetToSeq(e.lk), lossy |-> e.lossy, inv |-> SetToSeq(e.inv), sp |-> e.sp, num |-> e.num,
+     \* cl: which element every clone was made from: <<source id, clone id>>
+     cl |-> e.cl,
      \* st: the buffer of the target slot must not have moved (in-place operation within promise / fixed capacity)
      st |-> step.op \in InPlaceOps /\ step.c > 0 /\ e.cs[step.c].k # "-" /\ e.cs[step.c].gen = cs[step.c].gen,
      held |-> SetToSeq(held \cup e.hl)]
@@ -179,7 +183,7 @@ Init ==
         /\ cs = [i \in Slots |->
                     IF i = 1 THEN [k |-> k, v |-> [x \in 1..n |-> x],
                                    cap |-> IF k = "B" THEN n ELSE IF z THEN -2 ELSE IF k = "F" THEN n + sp ELSE -1,
-                                   pr |-> IF k = "B" THEN 0 ELSE n + sp, gen |-> 0, blk |-> 1, off |-> 0]
+                                   pr |-> IF k = "B" THEN 0 ELSE n + sp, gen |-> 0, blk |-> IF n = 0 THEN 0 ELSE 1, off |-> 0]
                     ELSE NoCont]
         /\ held = {} /\ dropped = [i \in Ids |-> 0] /\ made = 1..n /\ leaked = {} /\ lossy = FALSE
         /\ key = [i \in Ids |-> DefaultKey(km, i)]
@@ -296,8 +300,10 @@ Resize ==
                               THEN \* pn-1 clones stored, the value dropped by unwinding
                                    [out |-> "inj", cs |-> Put(c, GrownTo(C, C.v \o Take(clones, p[2] - 1), m)),
                                     dr |-> <<val>>, cr |-> {val} \cup Range(Take(clones, p[2] - 1)),
+                                    cl |-> [q \in 1..(p[2] - 1) |-> <<val, clones[q]>>],
                                     key |-> [id \in Ids |-> IF id \in Range(f) THEN key[val] ELSE key[id]], nf |-> nfr] @@ E0
                               ELSE [cs |-> Put(c, Grown(C, C.v \o clones \o <<val>>)), cr |-> Range(f),
+                                    cl |-> [q \in 1..Len(clones) |-> <<val, clones[q]>>],
                                     key |-> [id \in Ids |-> IF id \in Range(f) THEN key[val] ELSE key[id]], nf |-> nfr] @@ E0
                          ELSE IF p[1] = "closure"
                               THEN [out |-> "inj", cs |-> Put(c, GrownTo(C, C.v \o Take(f, p[2] - 1), m)),
@@ -324,8 +330,10 @@ ExtendSlice ==
                 e == IF Full(C, m) THEN [out |-> "panic", dr |-> src, cr |-> Range(src), nf |-> 2 * m] @@ E0
                      ELSE IF p[1] = "clone"
                      THEN [out |-> "inj", cs |-> Put(c, GrownTo(C, C.v \o Take(cl, p[2] - 1), Len(C.v) + m)), dr |-> src,
+                           cl |-> [q \in 1..(p[2] - 1) |-> <<src[q], cl[q]>>],
                            cr |-> Range(src) \cup Range(Take(cl, p[2] - 1)), key |-> kk, nf |-> 2 * m] @@ E0
-                     ELSE [cs |-> Put(c, Grown(C, C.v \o cl)), dr |-> src, cr |-> Range(f), key |-> kk, nf |-> 2 * m] @@ E0
+                     ELSE [cs |-> Put(c, Grown(C, C.v \o cl)), dr |-> src, cr |-> Range(f), key |-> kk, nf |-> 2 * m,
+                           cl |-> [q \in 1..m |-> <<src[q], cl[q]>>]] @@ E0
             IN Commit(st, e)
 
 (* extend_from_within_clone(a..b) *)
@@ -348,8 +356,10 @@ ExtendWithin ==
                     e == IF bad \/ Full(C, m) THEN [out |-> "panic", nf |-> m] @@ E0
                          ELSE IF p[1] = "clone"
                          THEN [out |-> "inj", cs |-> Put(c, GrownTo(C, C.v \o Take(cl, p[2] - 1), n + m)),
-                               cr |-> Range(Take(cl, p[2] - 1)), key |-> kk, nf |-> m] @@ E0
-                         ELSE [cs |-> Put(c, Grown(C, C.v \o cl)), cr |-> Range(cl), key |-> kk, nf |-> m] @@ E0
+                               cr |-> Range(Take(cl, p[2] - 1)), key |-> kk, nf |-> m,
+                               cl |-> [q \in 1..(p[2] - 1) |-> <<src[q], cl[q]>>]] @@ E0
+                         ELSE [cs |-> Put(c, Grown(C, C.v \o cl)), cr |-> Range(cl), key |-> kk, nf |-> m,
+                               cl |-> [q \in 1..m |-> <<src[q], cl[q]>>]] @@ E0
                 IN Commit(st, e)
 
 (* extend(iter): iterator with lower size hint h producing fresh ids *)
@@ -607,7 +617,7 @@ Convert ==
              [] OTHER                  -> C.k = "V"
         /\ LET nc == CASE w = "into_boxed_slice" ->
                             [C EXCEPT !.k = "B", !.v = IF C.k = "R" THEN Rev(C.v) ELSE C.v, !.gen = C.gen + 1,
-                                      !.blk = nblk, !.off = 0]
+                                      !.blk = IF n = 0 THEN -1 ELSE nblk, !.off = 0]
                        [] w = "into_fixed_vec" -> [C EXCEPT !.k = "F", !.pr = 0]   \* capacity: whatever the BumpVec had
                        [] w = "into_vec"       -> [C EXCEPT !.k = "V", !.pr = IF C.cap >= 0 THEN C.cap ELSE 0,
                                                             !.cap = IF C.cap = -2 THEN -2 ELSE -1]
@@ -632,7 +642,7 @@ NewCont ==
         /\ FreshOk(m) /\ (k = "B" => sp = 0)
         /\ Commit([op |-> "new", d |-> d, s |-> k, i |-> m + sp, xs |-> f] @@ S0,
                   [cs |-> Put(d, [k |-> k, v |-> f, cap |-> NewCap(k, m + sp), pr |-> IF k = "B" THEN 0 ELSE m + sp,
-                                  gen |-> 0, blk |-> nblk, off |-> 0]),
+                                  gen |-> 0, blk |-> IF m = 0 THEN 0 ELSE nblk, off |-> 0]),
                    cr |-> Range(f), nf |-> m, nb |-> 1, inv |-> {d}] @@ E0)
 
 (* into_flattened: a container of [T; 2] built from fresh ids, flattened, put into a free slot *)
@@ -644,7 +654,8 @@ Flatten ==
             fv == IF k = "R" THEN Flat([i \in 1..m |-> <<f[2 * i], f[2 * i - 1]>>]) ELSE f IN
         /\ FreshOk(2 * m) /\ 2 * m <= MaxLen
         /\ Commit([op |-> "flatten", d |-> d, s |-> k, xs |-> f] @@ S0,
-                  [cs |-> Put(d, [k |-> k, v |-> fv, cap |-> NewCap(k, 2 * m), pr |-> 0, gen |-> 0, blk |-> nblk, off |-> 0]),
+                  [cs |-> Put(d, [k |-> k, v |-> fv, cap |-> NewCap(k, 2 * m), pr |-> 0, gen |-> 0,
+                                  blk |-> IF m = 0 THEN (IF k = "B" THEN 0 ELSE -1) ELSE nblk, off |-> 0]),
                    cr |-> Range(f), nf |-> 2 * m, nb |-> 1, inv |-> {d}] @@ E0)
 
 -----------------------------------------------------------------------------
@@ -721,7 +732,7 @@ SplitSpare ==
         /\ C.k = "F" /\ CapKnown(C)
         \* the spare part (BumpBox<[MaybeUninit<T>]>) is not a slot: only its length is reported (-2: usize::MAX - len)
         /\ Commit([op |-> "split_at_spare", c |-> c] @@ S0,
-                  [cs |-> Put(c, [C EXCEPT !.k = "B", !.blk = nblk, !.off = 0]), nb |-> 1, inv |-> {c},
+                  [cs |-> Put(c, [C EXCEPT !.k = "B", !.blk = IF Len(C.v) = 0 THEN -1 ELSE nblk, !.off = 0]), nb |-> 1, inv |-> {c},
                    num |-> <<IF C.cap = -2 THEN -2 ELSE C.cap - Len(C.v)>>] @@ E0)
 
 \* partition(pred): transcription of Iterator::partition_in_place (swap first false with last true)
@@ -761,6 +772,7 @@ Merge ==
         LET C == cs[c]  D == cs[d] IN
         /\ c # d /\ C.k = "B" /\ D.k = "B"
         /\ (C.blk = D.blk \/ C.blk = 0 \/ D.blk = 0)      \* unrelated blocks may be adjacent by accident: not generated
+        /\ C.blk >= 0 /\ D.blk >= 0
         /\ Len(C.v) + Len(D.v) <= MaxLen
         /\ LET adj == Zst \/ (C.blk = D.blk /\ C.off + Len(C.v) = D.off)
            IN Commit([op |-> "merge", c |-> c, d |-> d] @@ S0,
